@@ -146,7 +146,9 @@ impl Desc {
                 )));
             }
 
-            if !label_names.insert(format!("${}", label_name)) {
+            // A variable label must neither repeat another variable label nor
+            // a const label (const label names are stored without prefix).
+            if label_names.contains(label_name) || !label_names.insert(format!("${}", label_name)) {
                 return Err(Error::Msg(format!(
                     "duplicate variable label name {}",
                     label_name
